@@ -423,6 +423,8 @@ def rule_metric_params(ctx: Ctx) -> None:
 
 
 def run(ctx: Ctx) -> None:
+    from rules import generic as _G
+    ctx.run(_G.rule_arity, ("perception_eval.config", "perception_eval.common.threshold", "perception_eval.evaluation.metrics.config", "perception_eval.evaluation.result.perception_frame_config"), "R-ARITY", 20)
     ctx.run(rule_range_kinds)
     ctx.run(rule_frame_configs)
     ctx.run(rule_normaliser)
